@@ -14,12 +14,34 @@ HERE = os.path.dirname(os.path.abspath(__file__))
 VERIF = os.path.dirname(HERE)
 
 HARMLESS = [
-    # (property, file, regex, replacement, description)
-    ('C01', 'src/util/leap.rs', r'\byear_abs\b', 'abs_year', 'rename a local in leap_years'),
-    ('C04', 'src/util/time/manipulate.rs', r'\bhours_as_nanos\b', 'nanos_of_hours', 'rename a local in add_hours/sub_hours'),
-    ('C06', 'src/util/time/convert.rs', r'let \(subday_hours, subhour_minutes, _\) = nanos_to_time\(nanos\);\n    days as i64 \* 24 \* 60 \+ subday_hours as i64 \* 60 \+ subhour_minutes as i64',
-     'let (subday_hours, subhour_minutes, _) = nanos_to_time(nanos);\n    subday_hours as i64 * 60 + days as i64 * 24 * 60 + subhour_minutes as i64', 'reorder the summands in days_nanos_to_minutes'),
-    ('C08', 'src/time.rs', r'// ########################################\n//\n//  TimeUtility trait implementation', '// (comment edited)\n// ########################################\n//\n//  TimeUtility trait implementation', 'edit a comment'),
+    # (property, file, old text, new text, description) - literal replacement, each an equivalent rewrite
+    ('C01', 'src/util/leap.rs', 'year_abs', 'abs_year', 'rename a local in leap_years'),
+    ('C04', 'src/util/time/manipulate.rs', 'hours_as_nanos', 'nanos_of_hours', 'rename a local in add_hours/sub_hours'),
+    ('C10', 'src/util/time/convert.rs', 'let minute = as_seconds / SECS_PER_MINUTE % SECS_PER_MINUTE;', 'let minute = as_seconds % SECS_PER_HOUR / SECS_PER_MINUTE;', 'minute as (s % 3600) / 60 in nanos_to_time'),
+    ('C02', 'src/util/date/convert.rs', '(days.rem_euclid(7) as u32 + if monday_first { 0 } else { 1 }) % 7', '((days.rem_euclid(7) + if monday_first { 0 } else { 1 }) % 7) as u32', 'cast after the modulo in days_to_wday'),
+    ('C01', 'src/util/leap.rs', 'year % 4 == 0 && (year % 100 != 0 || year % 400 == 0)', '(year % 4 == 0 && year % 100 != 0) || year % 400 == 0', 'regrouped leap rule'),
+    ('C10', 'src/util/offset.rs', """    (((nanoseconds as i64 + offset as i64 * NANOS_PER_SEC as i64) + NANOS_PER_DAY as i64)
+        % NANOS_PER_DAY as i64)
+        .unsigned_abs()""", '    (nanoseconds as i64 + offset as i64 * NANOS_PER_SEC as i64).rem_euclid(NANOS_PER_DAY as i64) as u64', 'rem_euclid in add_offset_to_nanos'),
+    ('C05', 'src/util/date/manipulate.rs', 'let target_month = total_months.rem_euclid(12) as u32 + 1;', 'let target_month = (total_months - target_continuous_year * 12) as u32 + 1;', 'month as total - 12*year in shift_months'),
+    ('C04', 'src/util/date/manipulate.rs', 'i32::try_from(old_days as i64 + days as i64).map_err(', 'i32::try_from(days as i64 + old_days as i64).map_err(', 'commuted sum in add_days'),
+    ('C06', 'src/datetime.rs', """        let extra_day = if self.days > compare.days && self.nanoseconds < compare.nanoseconds {
+            -1
+        } else if self.days < compare.days && self.nanoseconds > compare.nanoseconds {
+            1
+        } else {
+            0
+        };
+
+        self.days as i64 - compare.days as i64 + extra_day""", """        let mut result = self.days as i64 - compare.days as i64;
+        if self.days > compare.days && self.nanoseconds < compare.nanoseconds {
+            result -= 1;
+        } else if self.days < compare.days && self.nanoseconds > compare.nanoseconds {
+            result += 1;
+        }
+        result""", 'imperative form of days_since'),
+    ('C01', 'src/util/date/convert.rs', '    let mday = remdays + 1;', '    let mday = 1 + remdays;', 'commuted sum in days_to_date'),
+    ('C08', 'src/time.rs', '// ########################################\n//\n//  TimeUtility trait implementation', '// (comment edited)\n// ########################################\n//\n//  TimeUtility trait implementation', 'edit a comment'),
 ]
 
 
@@ -77,7 +99,8 @@ def run(only=None):
             fresh()
             p = os.path.join(copy, rel)
             s = open(p).read()
-            s2, k = re.subn(pat, rep, s)
+            k = s.count(pat)
+            s2 = s.replace(pat, rep)
             if not k:
                 print('selftest harmless edit (%s): pattern not found, skipped' % desc)
                 continue
